@@ -72,7 +72,8 @@ def classify_setting(in_val):
 
 
 def settings_grid():
-    grid = [None] + INTS + [1.5, 0.0, "", "a", "3", "(1, 2)", (), (1,), (1, 2, 3), [1], [1, 2, 3]]
+    grid = [None] + INTS + [1.5, 0.0, "", "a", "3", "(1, 2)", (), (1,), (1, 2, 3), [1], [1, 2, 3],
+                                   (None,), (0,), [0], [None], (None, None, None), (0, 0, 0), [0, None, 0], (None, 1, None)]
     for a in ELEMS:
         for b in ELEMS:
             grid.append((a, b))
